@@ -287,3 +287,5 @@ def run(repo, rep, tier):
   r2_r3_fit(repo, rep, cls)
   r4_r5_aggregation(repo, rep, cls)
   r6_pairing(repo, rep, cls)
+  from mmsa import tbrrules
+  tbrrules.kwarg_subdict_rule(repo, rep, 'R4/aggregation')
